@@ -221,15 +221,34 @@ func (f *fileData) saveOpen() error {
 		// the name was removed, renamed or replaced since: whatever is there now is not this file
 		return nil
 	}
-	_, err := f.fs.getFile(f.path)
+	current, err := f.fs.getFile(f.path)
 	if errors.Is(err, hackpadfs.ErrNotExist) || errors.Is(err, hackpadfs.ErrNotDir) {
 		return nil
 	}
 	if err != nil {
 		return err
 	}
-	return f.save()
+	// the handle owns the contents; mode and modification time are the file's own unless changed through this handle
+	// (a Chmod or Chtimes of the name since the handle was opened must survive a Write)
+	meta := currentMeta{FileRecord: f, mode: current.Mode(), modTime: current.ModTime()}
+	if f.modeOverride != nil {
+		meta.mode = *f.modeOverride
+	}
+	if !f.modTimeOverride.IsZero() {
+		meta.modTime = f.modTimeOverride
+	}
+	return f.fs.setFile(f.path, meta)
 }
+
+// currentMeta is a file's record with the given mode and modification time
+type currentMeta struct {
+	FileRecord
+	mode    hackpadfs.FileMode
+	modTime time.Time
+}
+
+func (c currentMeta) Mode() hackpadfs.FileMode { return c.mode }
+func (c currentMeta) ModTime() time.Time       { return c.modTime }
 
 func (f *fileData) info() hackpadfs.FileInfo {
 	return fileInfo{Record: f, Path: f.path}
